@@ -10,6 +10,7 @@ and the item-level kernels of `Pose/Model/Lie.lean`:
   `so3_Exp / se3_Exp / rxso3_Exp / sim3_Exp` and wrap the result in the matching group type (`expTarget`);
 * the kernels act on the last dimension; the leading dimensions (`lshape`, any rank, empty extents allowed) are kept;
 * the small-angle threshold is `torch.finfo(dtype).eps` of the tensor's dtype (`DType.eps`);
+* `<lt>_type.Exp` accepts a LieTensor or a plain Tensor (`typeExp`); `x.Exp()` is `x.ltype.Exp(x)`;
 * `matrix()` of an algebra tensor is `matrix()` of its `Exp`; the result has shape `lshape ++ [n, n]`.
 
 A tensor is a shape and a flat row-major list (`TensorV`).
@@ -47,16 +48,17 @@ def ofName : String → Option LType
   | "sim3" => some sim3 | "RxSO3" => some RxSO3 | "rxso3" => some rxso3 | _ => none
 end LType
 
+/-- the dtypes the property quantifies over -/
 inductive DType where
-  | f64 | f32 | f16 | bf16
+  | f64 | f32
 deriving DecidableEq, Repr, Inhabited
 
 namespace DType
 /-- number of explicit mantissa bits -/
 def mant : DType → Nat
-  | f64 => 52 | f32 => 23 | f16 => 10 | bf16 => 7
+  | f64 => 52 | f32 => 23
 def ofName : String → Option DType
-  | "float64" => some f64 | "float32" => some f32 | "float16" => some f16 | "bfloat16" => some bf16 | _ => none
+  | "float64" => some f64 | "float32" => some f32 | _ => none
 variable {α : Type} [Scalar α]
 /-- `torch.finfo(dtype).eps = 2^(-mant)` -/
 def eps (d : DType) : α := q 1 (2 ^ d.mant)
@@ -130,6 +132,19 @@ def matrix (dt : DType) (x : TensorV α) : List Nat × List α :=
   let grp := if x.ltype.onManifold then rows.map (itemExp dt.eps x.ltype) else rows
   (x.lshape ++ [g.matN, g.matN], (grp.map (itemMatrix g)).flatten)
 end TensorV
+
+/-- `<lt>_type.Exp(x)` — the method every entry point ends in.  The code starts with
+`x = x.tensor() if isinstance(x, LieTensor) else x`: a LieTensor argument is stripped to its data (its own `ltype` is not
+consulted) and a plain `Tensor` is taken as it is, so both branches reach the kernel of `lt` with a bare (shape, data).
+A group type raises first (`LieType.Exp`); a last dimension other than the type's makes the kernel / the result
+constructor fail (modelled as `lastDim`). -/
+def typeExp (lt : LType) (dt : DType) (shape : List Nat) (data : List α) : Except GlueErr (TensorV α) :=
+  match lt.expTarget with
+  | none => .error .noExp
+  | some g =>
+    if shape.getLast? ≠ some lt.dim then .error .lastDim
+    else if data.length ≠ numel shape then .error .numel
+    else .ok ⟨g, shape.dropLast ++ [g.dim], ((chunks lt.dim data).map (itemExp dt.eps lt)).flatten⟩
 
 /-- `pp.Exp(pp.LieTensor(data, ltype=lt))` -/
 def ppExp (lt : LType) (dt : DType) (shape : List Nat) (data : List α) : Except GlueErr (TensorV α) :=
